@@ -421,6 +421,14 @@ theorem ws_some_line (l y : Str) (h : '\n' ∉ l) (hi : l = [] ∨ l.any (· != 
     simp
 
 open Normalize in
+/-- a line whose first character is not white space is copied from a line start — the state in which
+    `NormalizeWhitespace` starts since the repair a0e7e3c of F-C09-1 -/
+theorem ws_some_line_of_head (c0 : Char) (r0 y : Str) (h : '\n' ∉ c0 :: r0) (hc : isSpace c0 = false) :
+    wsLinesAux (some 0) ((c0 :: r0) ++ '\n' :: y) = (c0 :: r0) ++ '\n' :: wsLinesAux (some 0) y := by
+  have hne : c0 ≠ ' ' := by intro e; subst e; revert hc; decide
+  exact ws_some_line _ _ h (Or.inr (by simp [hne]))
+
+open Normalize in
 theorem ws_line (st : Option Nat) (hst : st = none ∨ st = some 0) (l y : Str) (h : '\n' ∉ l)
     (hi : l = [] ∨ l.any (· != ' ') = true) :
     wsLinesAux st (l ++ '\n' :: y) = l ++ '\n' :: wsLinesAux (some 0) y := by
@@ -497,8 +505,9 @@ theorem codeSource_nl2 (tab : Nat) (first : List Str) (more : List (Nat × List 
 open Normalize in
 theorem ws_codeSource (tab : Nat) (first : List Str) (more : List (Nat × List Str)) (h1 : RunInk first)
     (h : ∀ er ∈ more, RunInk er.2) :
-    wsLinesAux none (codeSource tab first more ++ ['\n', '\n']) = codeSource tab first more ++ ['\n', '\n'] := by
-  rw [codeSource_nl2, ws_run tab none (Or.inl rfl) first h1, wsLinesAux_nl, ws_restText tab more h]
+    wsLinesAux (some 0) (codeSource tab first more ++ ['\n', '\n']) = codeSource tab first more ++ ['\n', '\n'] := by
+  -- from a line start (`some 0`): the start state of `NormalizeWhitespace` since the repair a0e7e3c of F-C09-1
+  rw [codeSource_nl2, ws_run tab (some 0) (Or.inr rfl) first h1, wsLinesAux_nl, ws_restText tab more h]
 
 /-- the characters of the source of a code block: those of its lines, spaces and line feeds -/
 theorem mem_indentRun {tab : Nat} {r : List Str} {c : Char} (h : c ∈ indentRun tab r) :
@@ -551,7 +560,7 @@ theorem mem_codeSource {tab : Nat} {first : List Str} {more : List (Nat × List 
 /-- `NormalizeWhitespace` only appends `"\n\n"` to a text without STX, ETX, CR, tab whose scanner image is itself -/
 theorem normalize_of_clean (tab : Nat) (s : Str)
     (hmem : ∀ c ∈ s, c ≠ Normalize.STX ∧ c ≠ Normalize.ETX ∧ c ≠ '\r' ∧ c ≠ '\t')
-    (hws : Normalize.wsLinesAux none (s ++ ['\n', '\n']) = s ++ ['\n', '\n']) :
+    (hws : Normalize.wsLinesAux (some 0) (s ++ ['\n', '\n']) = s ++ ['\n', '\n']) :
     Normalize.normalize tab s = s ++ ['\n', '\n'] := by
   have h1 : Normalize.stripCtl s = s := by
     rw [Normalize.stripCtl_eq_filter, List.filter_eq_self]
@@ -2078,7 +2087,8 @@ theorem convert_span (tab : Nat) (htab : 0 < tab) (k : Nat) (a body b : Str) (h 
     · intro c hc
       obtain ⟨_, _, a3, a4, a5, a6⟩ := hsrc c hc
       exact ⟨a5, a6, a3, a4⟩
-    · have := ws_none_line (spanData k a body b) ['\n'] hnl
+    · have := ws_some_line_of_head c0 r0 ['\n'] (hcr ▸ hnl) hc0s
+      rw [hcr]
       simpa [Normalize.wsLinesAux] using this
   have hrc : refsClosed (spanData k a body b ++ ['\n', '\n']) = true := by
     have hna : '&' ∉ a := fun hm => wordSp_ne (hw a haw _ hm) (by decide) rfl
@@ -2439,7 +2449,7 @@ theorem convert_paraCode (tab : Nat) (htab : 0 < tab) (p : Str) (first : List St
     unfold Pipeline.prepare
     rw [normalize_of_clean tab _ (fun c hc => by
       obtain ⟨_, a2, a3, a4, a5⟩ := hchars c hc; exact ⟨a4, a5, a2, a3⟩)
-      (by rw [e, ws_none_line _ _ hpnl, Normalize.wsLinesAux_nl,
+      (by rw [e, ws_some_line_of_head c0 r0 _ hpnl hc0s, Normalize.wsLinesAux_nl,
             ws_codeSource_some tab first more i1 (fun er her => (hm er her).1)])]
     apply extract_id
     rw [e]
